@@ -71,7 +71,8 @@ contract(DISC + "_DiscoverProtocol.datagram_received",
          modifies=["self._discovered_ips", "self.tasks"],
          raises={},
          post_let={"T": "events('task_created')"},
-         ensures={"address_is_remembered": "ip in self._discovered_ips",
+         ensures={"address_with_a_task_is_remembered": "implies(seen or len(T) == 1, ip in self._discovered_ips)",
+                  "a_reply_that_is_no_midea_reply_does_not_use_up_the_address": "implies(not seen and len(T) == 0, not (ip in self._discovered_ips))",
                   "duplicates_create_nothing": "implies(seen, len(T) == 0)",
                   "at_most_one_task_per_datagram": "len(T) <= 1",
                   "a_v2_or_v3_reply_from_a_new_address_gets_its_task": "implies(not seen and (data[:2] == b'\\x5a\\x5a' or data[:2] == b'\\x83\\x70'), len(T) == 1)",
